@@ -219,10 +219,10 @@ NEWTYPE_ROLES = COMMON_ROLES + [
     ("vis", r"^match \S*\.constraints \{ TypeEntryNewtypeConstraints::None => Some\(quote!"),
     ("not", r"^match \S*\.constraints \{ TypeEntryNewtypeConstraints::EnumValue\(_\) => true \| _ => false \}\.then\("),
     ("value_output", r"^\S*constraints~(DenyValue|EnumValue)\.iter\(\)\.map\(.*\.output_value\("),
-    ("max", r"^\S*String\.max_length\.map\("),
-    ("min", r"^\S*String\.min_length\.map\("),
+    ("max", r"^\S*String\.max_length\.(map|filter)\(.*quote!"),
+    ("min", r"^\S*String\.min_length\.(map|filter)\(.*quote!"),
     ("pat", r"^\S*String\.pattern\.map\("),
-    ("v", r"^elem<\S*String\.(max|min)_length>$"),
+    ("v", r"^elem<\S*String\.(max|min)_length\b.*>$"),
     ("p", r"^elem<\S*String\.pattern>$"),
     ("err", r"^format!\("),
     ("default_impl", r"^\S*\.default\.map\(\|\.\.\| quote!"),
